@@ -6,6 +6,8 @@
   reducing function `f`, an arbitrary `float()` oracle `F`, arbitrary phases, values and histories.
 -/
 import Proofs.Lemmas.ContainerRun
+import Proofs.Lemmas.ComposeCycles
+import Proofs.Lemmas.ComposeStats
 
 namespace C15
 open Container
@@ -434,5 +436,29 @@ example : subsetVector [true, false, true, true, false] = [0, -1, 1, 2, -1] := b
 example : selected [0, -1, 1, 2, -1] = [0, 2, 3] ∧ chainVector [0, -1, 1, 2, -1] = [0, 1, 1] := by decide
 example := chain_maximal_runs [0, -1, 1, 2, -1] 1 2 2 3 1 1 (by decide) (by decide) (by decide) (by decide) (by decide)
 example := subset_is_rank [true, false, true, true, false] 3 true (by decide)
+
+
+/-! ### Link to the index-map model (C16)
+
+The container model and the index-map model (`EmdModel/Maps.lean`) were written independently.
+In every coherent container state the stored subset and chain vectors are exactly the vectors
+`Maps.subsetVector` / `Maps.chainVector` that C16's theorems characterise (rank among selected
+cycles, maximal runs, round trips, projections) — so those theorems apply to the container. -/
+theorem container_vectors_are_index_map_vectors (s : State) (h : Inv s) (sel : Sel) (hs : s.sel = some sel) :
+    ∃ valids : List Bool, valids.length = s.K ∧
+      sel.subset = Maps.subsetVector valids ∧
+      sel.chain.map (fun (n : Nat) => (n : Int)) = Maps.chainVector (Maps.subsetVector valids) := by
+  have ok := h.sel sel hs
+  refine ⟨sel.subset.map fun j => decide (0 ≤ j), by simp [ok.len], ?_, ?_⟩
+  · rw [← ComposeCycles.subsetVector_agree]; exact ok.rank
+  · rw [← ComposeCycles.chainVector_agree, ← ok.rank, ok.chain]
+
+
+/-- Link to the per-cycle statistics model (C14): the container's label-lookup route computes exactly
+    `CycleStats.cycleStat`, of which C14 proves that entry k is f applied to precisely the samples
+    carrying label k (for every f and every labelling with gaps). -/
+theorem metric_is_cycle_statistic (f : List Rat → Rat) (cv : List Int) (vals : List Rat) :
+    lookupStat f cv vals = (CycleStats.cycleStat f vals cv).map some :=
+  ComposeStats.lookupStat_eq_cycleStat f cv vals
 
 end C15
